@@ -61,13 +61,21 @@ def cfg(tier):
 
 def params(tier):
     D, L = cfg(tier)
-    ps = [P("ending", 0, len(ENDINGS) - 1), P("nchild", 0, 2), P("when", 0, 5)]
+    ps = [P("ending", 0, len(ENDINGS) - 1), P("nchild", 0, 2), P("when", 0, 5), P("flaky", 0, 1)]
     for j in range(D):
-        ps += [P(f"gap{j}", 0, L), P(f"arm{j}", 0, 3)]
+        ps += [P(f"gap{j}", 0, L), P(f"arm{j}", 0, 5)]
     return ps
 
 
-def build_app(ending, nchild, when, log, ctl):
+class _ResA:
+    pass
+
+
+class _ResB:
+    pass
+
+
+def build_app(ending, nchild, when, log, ctl, flaky=0):
     boom = BodyErr("boom")
     ctl["boom"] = boom
 
@@ -102,7 +110,8 @@ def build_app(ending, nchild, when, log, ctl):
     def td_res(label):
         """A resource with a teardown callback (add_resource(..., teardown_callback=))."""
         log.append(("registered", label))
-        add_resource(object(), label.replace(".", "_"), teardown_callback=lambda: log.append(("td", label)))
+        # published under TWO types: still one resource with one teardown callback
+        add_resource(object(), label.replace(".", "_"), [_ResA, _ResB], teardown_callback=lambda: log.append(("td", label)))
 
     def td_nested(label):
         """A callback that registers a further callback while the teardown is running."""
@@ -180,6 +189,17 @@ def build_app(ending, nchild, when, log, ctl):
 
             await start_service_task(poster, "poster")
             await posted.wait()
+            if flaky:
+                # a service task whose ASYNC teardown action fails when awaited: the documented fallback is cancellation - the
+                # application's ending must not be affected
+                async def flaky_service():
+                    await anyio.sleep_forever()
+
+                async def failing_stop():
+                    await anyio.sleep(0)
+                    raise ConnectionError("peer went away while being asked to stop")
+
+                await start_service_task(flaky_service, "flaky", teardown_action=failing_stop)
             td_nested("root.nested")
             td_aw("root.awaitable")
             ctl["started"] = anyio.Event()
@@ -230,7 +250,8 @@ def fn(a, tier):
     when = pick(a["when"], 6) if ending in (17, 18, 19, 20, 21) else 0
     tape = DeviationTape([(a[f"gap{j}"], a[f"arm{j}"]) for j in range(D)], L)
     log, ctl = [], {}
-    App = build_app(ending, nchild, when, log, ctl)
+    flaky = pick(a["flaky"], 2)
+    App = build_app(ending, nchild, when, log, ctl, flaky)
     sig = {17: signal.SIGINT, 18: signal.SIGTERM, 19: signal.SIGTERM, 20: signal.SIGINT}.get(ending)
     state = {"sent": False, "ticks": 0}
 
@@ -285,7 +306,8 @@ def fn(a, tier):
     alog.setLevel(saved[2])
     logging.disable(saved[3])
     log.append(("returned",))
-    summary = {"ending": ENDINGS[ending], "children": nchild, "moment": when, "schedule": tape.taken, "outcome": outcome[:2]}
+    summary = {"ending": ENDINGS[ending], "children": nchild, "moment": when, "schedule": tape.taken, "outcome": outcome[:2],
+               "service_task_whose_async_teardown_action_fails": bool(flaky)}
     if sig is not None and not state["sent"]:
         return OK(summary, nontrivial=False)  # the application ended before the signal could be injected
     registered = [e[1] for e in log if e[0] == "registered"]
@@ -323,7 +345,7 @@ H = Harness(
     params=params,
     cube=lambda tier: 2,
     title="every way and moment an application can end; components registering sync, async, awaitable-returning and self-extending teardown callbacks",
-    bound_text=lambda tier: "ending in {" + "; ".join(ENDINGS) + "} x 0-2 children x moment 0-5 (signal step / crash delay); FIFO schedule with "
+    bound_text=lambda tier: "ending in {" + "; ".join(ENDINGS) + "} x 0-2 children x moment 0-5 (signal step / crash delay) x with/without a service task whose async teardown action raises when awaited; resources with teardown callbacks are published under two types; FIFO schedule with "
     + ("one deviation within 10 decisions" if tier == "quick" else "two deviations"),
     oracle="every teardown callback registered on the root context ran exactly once, in reverse order, before run_application returned or raised; "
     "outcome per the statement's table (return / SystemExit(n) / SystemExit(1) / the original exception); a UserWarning accompanies invalid run() results",
